@@ -79,6 +79,9 @@ class Verdict:
         if os.environ.get('VERIF_REPO_SRC', '/repo/src') != '/repo/src':
             # a run against a scratch copy (seeded change) never touches the evidence
             evid = os.path.join(VERIF, 'evidence_scratch')
+        elif not self.pid.startswith('C'):
+            # coverage modules beyond the listed properties (X01 ...)
+            evid = os.path.join(VERIF, 'evidence_extra')
         os.makedirs(evid, exist_ok=True)
         wall = time.time() - self.t0
         cov = dict(
